@@ -556,4 +556,162 @@ theorem walkSkelL_append {σ : Type} (S : Steps σ) (a b : List Desc) :
       | error e => rfl
       | ok s2 => simp only; exact ih s2
 
+/-! ### count-free expansion -/
+
+/-- concatenation of two optional outputs -/
+def oapp (x y : Option (List Nat)) : Option (List Nat) :=
+  match x, y with
+  | some a, some b => some (a ++ b)
+  | _, _ => none
+
+theorem oapp_nil (y : Option (List Nat)) : oapp (some []) y = y := by cases y <;> simp [oapp]
+theorem oapp_assoc (x y z : Option (List Nat)) : oapp (oapp x y) z = oapp x (oapp y z) := by
+  cases x <;> cases y <;> cases z <;> simp [oapp]
+theorem oapp_map1 (x y : Option (List Nat)) (i : Nat) :
+    oapp (x.map (i :: ·)) y = (oapp x y).map (i :: ·) := by
+  cases x <;> cases y <;> simp [oapp]
+theorem oapp_map2 (x y : Option (List Nat)) (i j : Nat) :
+    oapp (x.map (fun r => i :: j :: r)) y = (oapp x y).map (fun r => i :: j :: r) := by
+  cases x <;> cases y <;> simp [oapp]
+
+theorem looseWith_seq (sub : Nat → Option (List Nat)) (id : Nat) (rest : List Nat) (h : 300000 ≤ id) :
+    looseWith sub (id :: rest) = oapp (sub id) (looseWith sub rest) := by
+  rw [looseWith.eq_def]; simp only [h, if_true]
+  cases sub id <;> cases looseWith sub rest <;> rfl
+theorem looseWith_delayed (sub : Nat → Option (List Nat)) (id f : Nat) (rest : List Nat)
+    (h1 : 100000 ≤ id) (h2 : id < 200000) (h3 : id % 1000 = 0) :
+    looseWith sub (id :: f :: rest) = (looseWith sub rest).map (fun r => id :: f :: r) := by
+  rw [looseWith.eq_def]; simp [show ¬ 300000 ≤ id by omega, h1, h2, h3]
+theorem looseWith_other (sub : Nat → Option (List Nat)) (id : Nat) (rest : List Nat)
+    (h : id < 300000) (h' : ¬ (100000 ≤ id ∧ id < 200000 ∧ id % 1000 = 0)) :
+    looseWith sub (id :: rest) = (looseWith sub rest).map (id :: ·) := by
+  rw [looseWith.eq_def]; simp [show ¬ 300000 ≤ id by omega, h']
+
+/-- a list that builds never ends inside a delayed replication head, so the count-free pass
+    splits at its end -/
+theorem looseWith_append (T : Tables) (sub : Nat → Option (List Nat)) (n : Nat) (a : List Nat) :
+    (∃ t, buildD T n a = .ok t) → ∀ b, looseWith sub (a ++ b) = oapp (looseWith sub a) (looseWith sub b) := by
+  fun_induction buildD T n a with
+  | case1 depth => intro _ b; simp [looseWith, oapp_nil]
+  | case2 depth id rest h1 h2 ih =>
+    intro ⟨t, h⟩ b
+    simp only [bind_ok, pure_ok] at h
+    obtain ⟨tl, htl, _⟩ := h
+    simp only [List.cons_append, looseWith_seq _ _ _ h1, ih ⟨tl, htl⟩ b, oapp_assoc]
+  | case3 id rest h1 row h2 => intro ⟨t, h⟩; cases h
+  | case4 id rest h1 row h2 d ih1 ih2 =>
+    intro ⟨t, h⟩ b
+    simp only [bind_ok, pure_ok] at h
+    obtain ⟨ms, hms, tl, htl, _⟩ := h
+    simp only [List.cons_append, looseWith_seq _ _ _ h1, ih2 ⟨tl, htl⟩ b, oapp_assoc]
+  | case5 depth id rest h1 h2 ih =>
+    intro ⟨t, h⟩ b
+    simp only [bind_ok, pure_ok] at h
+    obtain ⟨tl, htl, _⟩ := h
+    have hn : ¬ (100000 ≤ id ∧ id < 200000 ∧ id % 1000 = 0) := by omega
+    simp only [List.cons_append, looseWith_other _ _ _ (by omega) hn, ih ⟨tl, htl⟩ b, oapp_map1]
+  | case6 depth id h1 h2 h3 h4 => intro ⟨t, h⟩; cases h
+  | case7 depth id h1 h2 h3 h4 f rest ih1 ih2 =>
+    intro ⟨t, h⟩ b
+    simp only [bind_ok, pure_ok] at h
+    obtain ⟨ms, hms, tl, htl, _⟩ := h
+    have e : rest ++ b = rest.take (xOf id) ++ (rest.drop (xOf id) ++ b) := by
+      rw [← List.append_assoc, List.take_append_drop]
+    have e' : looseWith sub rest = oapp (looseWith sub (rest.take (xOf id))) (looseWith sub (rest.drop (xOf id))) := by
+      conv => lhs; rw [← List.take_append_drop (xOf id) rest]
+      exact ih1 ⟨ms, hms⟩ _
+    simp only [List.cons_append, looseWith_delayed _ _ _ _ h3 (by omega) h4, oapp_map2]
+    rw [e, ih1 ⟨ms, hms⟩, ih2 ⟨tl, htl⟩ b, e', oapp_assoc]
+  | case8 depth id rest h1 h2 h3 h4 ih1 ih2 =>
+    intro ⟨t, h⟩ b
+    simp only [bind_ok, pure_ok] at h
+    obtain ⟨ms, hms, tl, htl, _⟩ := h
+    have e : rest ++ b = rest.take (xOf id) ++ (rest.drop (xOf id) ++ b) := by
+      rw [← List.append_assoc, List.take_append_drop]
+    have e' : looseWith sub rest = oapp (looseWith sub (rest.take (xOf id))) (looseWith sub (rest.drop (xOf id))) := by
+      conv => lhs; rw [← List.take_append_drop (xOf id) rest]
+      exact ih1 ⟨ms, hms⟩ _
+    have hn : ¬ (100000 ≤ id ∧ id < 200000 ∧ id % 1000 = 0) := by omega
+    simp only [List.cons_append, looseWith_other _ _ _ (by omega) hn, oapp_map1]
+    rw [e, ih1 ⟨ms, hms⟩, ih2 ⟨tl, htl⟩ b, e', oapp_assoc]
+  | case9 depth id rest h1 h2 h3 ih =>
+    intro ⟨t, h⟩ b
+    simp only [bind_ok, pure_ok] at h
+    obtain ⟨tl, htl, _⟩ := h
+    have hn : ¬ (100000 ≤ id ∧ id < 200000 ∧ id % 1000 = 0) := by omega
+    simp only [List.cons_append, looseWith_other _ _ _ (by omega) hn, ih ⟨tl, htl⟩ b, oapp_map1]
+
+def subLoose (T : Tables) : Nat → Nat → Option (List Nat)
+  | 0 => subOf T (fun _ => none)
+  | n + 1 => subOf T (loose T n)
+
+theorem loose_eq_subLoose (T : Tables) (n : Nat) (ids : List Nat) :
+    loose T n ids = looseWith (subLoose T n) ids := by
+  cases n <;> rfl
+
+/-- every list that builds at all flattens to its count-free expansion -/
+theorem loose_buildD (T : Tables) (hK : T.Keyed) (n : Nat) (ids : List Nat) :
+    ∀ t, buildD T n ids = .ok t → loose T n ids = some (flatMemberIds t) := by
+  fun_induction buildD T n ids with
+  | case1 depth => intro t h; cases h; rw [loose_eq_subLoose]; simp [looseWith, flatMemberIds]
+  | case2 depth id rest h1 h2 ih =>
+    intro t h
+    simp only [bind_ok, pure_ok] at h
+    obtain ⟨tl, htl, rfl⟩ := h
+    have := ih tl htl
+    rw [loose_eq_subLoose] at this ⊢
+    rw [looseWith_seq _ _ _ h1, this]
+    cases depth <;> simp [subLoose, subOf, h2, oapp, flatMemberIds, Desc.flatIds]
+  | case3 id rest h1 row h2 => intro t h; cases h
+  | case4 id rest h1 row h2 d ih1 ih2 =>
+    intro t h
+    simp only [bind_ok, pure_ok] at h
+    obtain ⟨ms, hms, tl, htl, rfl⟩ := h
+    have h2' := ih2 tl htl
+    rw [loose_eq_subLoose] at h2' ⊢
+    rw [looseWith_seq _ _ _ h1, h2']
+    simp [subLoose, subOf, h2, ih1 ms hms, oapp, flatMemberIds, Desc.flatIds]
+  | case5 depth id rest h1 h2 ih =>
+    intro t h
+    simp only [bind_ok, pure_ok] at h
+    obtain ⟨tl, htl, rfl⟩ := h
+    have := ih tl htl
+    rw [loose_eq_subLoose] at this ⊢
+    have hn : ¬ (100000 ≤ id ∧ id < 200000 ∧ id % 1000 = 0) := by omega
+    rw [looseWith_other _ _ _ (by omega) hn, this]
+    simp [flatMemberIds, Desc.flatIds]
+  | case6 depth id h1 h2 h3 h4 => intro t h; cases h
+  | case7 depth id h1 h2 h3 h4 f rest ih1 ih2 =>
+    intro t h
+    simp only [bind_ok, pure_ok] at h
+    obtain ⟨ms, hms, tl, htl, rfl⟩ := h
+    have a1 := ih1 ms hms
+    have a2 := ih2 tl htl
+    rw [loose_eq_subLoose] at a1 a2 ⊢
+    rw [looseWith_delayed _ _ _ _ h3 (by omega) h4]
+    conv => lhs; rw [← List.take_append_drop (xOf id) rest]
+    rw [looseWith_append T _ depth _ ⟨ms, hms⟩, a1, a2]
+    simp [oapp, flatMemberIds, Desc.flatIds, lookupB_id T hK]
+  | case8 depth id rest h1 h2 h3 h4 ih1 ih2 =>
+    intro t h
+    simp only [bind_ok, pure_ok] at h
+    obtain ⟨ms, hms, tl, htl, rfl⟩ := h
+    have a1 := ih1 ms hms
+    have a2 := ih2 tl htl
+    rw [loose_eq_subLoose] at a1 a2 ⊢
+    have hn : ¬ (100000 ≤ id ∧ id < 200000 ∧ id % 1000 = 0) := by omega
+    rw [looseWith_other _ _ _ (by omega) hn]
+    conv => lhs; rw [← List.take_append_drop (xOf id) rest]
+    rw [looseWith_append T _ depth _ ⟨ms, hms⟩, a1, a2]
+    simp [oapp, flatMemberIds, Desc.flatIds]
+  | case9 depth id rest h1 h2 h3 ih =>
+    intro t h
+    simp only [bind_ok, pure_ok] at h
+    obtain ⟨tl, htl, rfl⟩ := h
+    have := ih tl htl
+    rw [loose_eq_subLoose] at this ⊢
+    have hn : ¬ (100000 ≤ id ∧ id < 200000 ∧ id % 1000 = 0) := by omega
+    rw [looseWith_other _ _ _ (by omega) hn, this]
+    simp [flatMemberIds, flatIds_lookupB T hK]
+
 end Bufr
